@@ -591,6 +591,12 @@ class ElemCodec:
 SymCodec = ElemCodec(Sym, lambda v: v, lambda t: t, 'Sym')
 IntCodec = ElemCodec(z3.IntSort(), lambda v: to_int(v), lambda t: t, 'Int')
 RealCodec = ElemCodec(z3.RealSort(), lambda v: to_real(v), lambda t: t, 'Real')
+ValCodec = ElemCodec(Val, lambda v: v, lambda t: t, 'Val')
+
+
+def seq_codec(inner):
+    """codec for lists whose elements are themselves z3-sequence modelled lists"""
+    return ElemCodec(z3.SeqSort(inner.sort), lambda v: v.s, lambda t: SeqVal(t, inner), 'Seq_' + inner.name)
 
 _pair_sorts = {}
 
